@@ -681,13 +681,67 @@ def c02_callee_name_equals_variable(r):
     return "is not a function or function pointer" in str(r.get("detail"))
 
 
+def _c02_program(r):
+    """rebuild the procedure of a C02/C08 record"""
+    import corpus.seeds as S
+
+    p = S.by_name(r["seed"])
+    how = r.get("how")
+    if how:
+        from .rebuild import rebuild
+
+        p0, op, args, env = rebuild({"seed": r["seed"], "chain": None, "op": how["op"], "enc": how["enc"]})
+        from .sweep import apply_op
+
+        p, ex, _ = apply_op(op, p0, list(args))
+    return p
+
+
 def c_mod_on_negative_numerator(r):
-    """`%` is emitted as C's remainder: a negative numerator gives a negative index"""
+    """`%` is emitted as C's remainder.  Recognised semantically: re-running the reference
+    interpreter with C's truncating remainder for `%` reproduces exactly what the C did
+    (the same wrong value at the same address, or the same out-of-bounds access)."""
     src = r.get("src") or ""
     if "%" not in src:
         return False
     d = r.get("detail") or {}
-    return r.get("kind") in ("oob", "value") and bool(re.search(r"\([^()]*-[^()]*\)\s*%|-\w+\s*%", src))
+    inputs = d.get("inputs")
+    if not inputs:
+        return False
+    from fractions import Fraction
+    from .check_c02 import reference_values
+    from . import loopsym as L
+
+    p = _c02_program(r)
+    if p is None:
+        return False
+    orig = L.ConcExec.__init__
+
+    def patched(self, *a, **k):
+        k["c_mod"] = True
+        orig(self, *a, **k)
+
+    L.ConcExec.__init__ = patched
+    try:
+        try:
+            ref, _cfg = reference_values(p._loopir_proc, inputs)
+        except L.ConcViolation as cv:
+            return r.get("kind") == "oob" and cv.kind in ("bounds", "view_extent")
+        finally:
+            L.ConcExec.__init__ = orig
+    except Exception:
+        return False
+    if r.get("kind") == "oob":
+        return False
+    try:
+        addr = int(d.get("address"))
+        cval = Fraction(d.get("c_value"))
+    except Exception:
+        return False
+    for pos, vals in ref.items():
+        if vals.get(addr) is not None and vals.get(addr) == cval and p._loopir_proc.args[pos].name.name() in str(d.get("what")):
+            return True
+    return False
 
 
 def c02_constant_division_folded_as_float(r):
@@ -696,3 +750,12 @@ def c02_constant_division_folded_as_float(r):
 
 def c02_scalar_in_stack_memory(r):
     return r.get("kind") == "c_compile_error" and "needs an explicit size or an initializer" in str(r.get("detail"))
+
+
+def bind_expr_on_window_expression(r):
+    """bind_expr accepts a WindowExpr (a window call argument) and produces `vnew = x[0:n, j]`,
+    an assignment of a window to a scalar; the emitted C is ill-typed"""
+    how = r.get("how") or {}
+    if how.get("op") != "bind_expr" or r.get("kind") != "c_compile_error":
+        return False
+    return bool(re.search(r"^\s*\w+ = \w+\[[^\]]*:", r.get("src") or "", flags=re.M))
